@@ -26,7 +26,6 @@ import (
 	"github.com/ontio/ontology-crypto/ec"
 	"github.com/ontio/ontology-crypto/keypair"
 	"github.com/ontio/ontology/common"
-	"github.com/ontio/ontology/common/constants"
 	"github.com/ontio/ontology/core/program"
 	"github.com/ontio/ontology/core/types"
 	"github.com/ontio/ontology/vm/neovm"
@@ -351,8 +350,10 @@ func specSorted(ks []*key) []*key {
 	return out
 }
 
+// validParams is the property's own statement of the valid region (key sets of size up to 16),
+// deliberately not taken from the code's constant.
 func validParams(m int64, n int) bool {
-	return 1 <= m && m <= int64(n) && n > 1 && n <= constants.MULTI_SIG_MAX_PUBKEY_SIZE
+	return 1 <= m && m <= int64(n) && n >= 2 && n <= 16
 }
 
 func shuffled(c *hx.Ctx, ks []*key) []*key {
